@@ -114,21 +114,40 @@ static std::string rest_after(const std::string& line, const std::string& key) {
 
 // ------------------------------------------------------------------------------------------------ annotate mode
 
-struct Filt { pcap_t* dead; bpf_program prog; bool ok; };
+struct Filt { pcap_t* handle; bpf_program prog; bool ok; };
 static std::map<std::string, Filt> g_filters;
+static std::string g_anndir = ".";
 
-static Filt& get_filter(int dlt, const std::string& text) {
-    std::string key = std::to_string(dlt) + "|" + text;
+// libpcap compiles some expressions differently for a savefile than for a dead handle (e.g. `ip6` on DLT_NULL:
+// the AF_INET6 values of the BSDs for a savefile, this host's value otherwise), so the sniffer's filter is compared
+// with a program compiled on a savefile handle of the same link type, OfflinePacketFilter with one compiled on a
+// dead handle.
+static pcap_t* savefile_handle(int dlt) {
+    std::string path = g_anndir + "/c17-ann-" + std::to_string(getpid()) + "-" + std::to_string(dlt) + ".pcap";
+    pcap_t* dead = pcap_open_dead(dlt, 262144);
+    if (!dead) return 0;
+    pcap_dumper_t* d = pcap_dump_open(dead, path.c_str());
+    if (d) pcap_dump_close(d);
+    pcap_close(dead);
+    char err[PCAP_ERRBUF_SIZE];
+    pcap_t* h = d ? pcap_open_offline(path.c_str(), err) : 0;
+    unlink(path.c_str());
+    return h;
+}
+
+static Filt& get_filter(int dlt, const std::string& text, bool savefile) {
+    std::string key = std::to_string(dlt) + (savefile ? "|s|" : "|d|") + text;
     auto it = g_filters.find(key);
     if (it != g_filters.end()) return it->second;
-    Filt f; f.dead = pcap_open_dead(dlt, 65535); f.ok = false;
-    if (f.dead && pcap_compile(f.dead, &f.prog, text.c_str(), 1, PCAP_NETMASK_UNKNOWN) == 0) f.ok = true;
+    Filt f; f.ok = false;
+    f.handle = savefile ? savefile_handle(dlt) : pcap_open_dead(dlt, 65535);
+    if (f.handle && pcap_compile(f.handle, &f.prog, text.c_str(), savefile ? 0 : 1, savefile ? 0 : 0xffffffff) == 0) f.ok = true;
     return g_filters[key] = f;
 }
 
-static int direct_match(int dlt, const std::string& text, const uint8_t* p, uint32_t caplen, uint32_t len) {
+static int direct_match(int dlt, const std::string& text, bool savefile, const uint8_t* p, uint32_t caplen, uint32_t len) {
     if (text.empty()) return 1;
-    Filt& f = get_filter(dlt, text);
+    Filt& f = get_filter(dlt, text, savefile);
     if (!f.ok) return -1;
     Exact ex(p, caplen);
     pcap_pkthdr h; memset(&h, 0, sizeof h);
@@ -165,8 +184,8 @@ static std::string annotate(const std::string& line) {
         return "s=throw:" + xname(e);
     }
     o << "s=" << to_hex(s.data(), s.size()) << " adv=" << adv;
-    o << " m=" << direct_match(dlt, filter, s.data(), uint32_t(s.size()), adv);
-    o << " mo=" << direct_match(dlt, filter, s.data(), uint32_t(s.size()), uint32_t(s.size()));
+    o << " m=" << direct_match(dlt, filter, true, s.data(), uint32_t(s.size()), adv);
+    o << " mo=" << direct_match(dlt, filter, false, s.data(), uint32_t(s.size()), uint32_t(s.size()));
     std::istringstream cs(w[3]);
     std::string cls;
     while (std::getline(cs, cls, ',')) {
@@ -444,10 +463,12 @@ static std::string do_offline(Case& c, const std::string& line) {
 
 int main(int argc, char** argv) {
     if (argc >= 2 && std::string(argv[1]) == "annotate") {
+        if (argc >= 3) g_anndir = argv[2];
+        mkdir(g_anndir.c_str(), 0777);
         int r = line_loop(annotate);
         for (auto& kv : g_filters) {
             if (kv.second.ok) pcap_freecode(&kv.second.prog);
-            if (kv.second.dead) pcap_close(kv.second.dead);
+            if (kv.second.handle) pcap_close(kv.second.handle);
         }
         return r;
     }
